@@ -145,6 +145,41 @@ type syncCase struct {
 	Name    string
 	Claimed int64                  // height evil claims
 	Serve   map[int64]*types.Block // overrides of the authentic chain served by evil (nil entry = "no block")
+	build   func() map[int64]*types.Block
+}
+
+func (c *syncCase) materialize() {
+	if c.Serve == nil && c.build != nil {
+		c.Serve = c.build()
+	}
+}
+
+// quickSyncKeep is the fixed sub-menu of structured mutations used by the quick tier on the sync path.
+func quickSyncKeep(base string) bool {
+	if strings.HasPrefix(base, "commit/roles=") {
+		r := strings.TrimPrefix(base, "commit/roles=")
+		if !strings.ContainsAny(r, "NOx") {
+			return true
+		}
+		return strings.Count(r, "B") == len(r)-1
+	}
+	for _, p := range []string{"commit/resigned:", "commit/truncate", "commit/append", "commit/prepend", "commit=", "commit.BlockID=zero", "commit.BlockID=other",
+		"commit/sig0.ValidatorIndex=4", "commit/sig0.ValidatorIndex=-1", "commit/sig0.ValidatorAddress=zero", "commit/sig0.Signature=nil", "commit/sig0.Signature=zero64",
+		"commit/sig0.Timestamp+1", "commit/sig0.Type=1", "commit/sig0.Height=0", "commit/sig0.Round=1", "commit/sig0.BlockID=zero",
+		"identity", "Version=\"\"", "ChainID=\"c32-chain2\"", "ChainID=\"\"", "Height=0", "Height=-1", "Time=+1ns", "Time=zero", "Time=lastBlockTime", "NumTxs=0", "TotalTxs=0", "AppVersion=\"x\"",
+		"data/Txs+=new", "data/Txs=none", "data/Txs.swap01", "Proposer=key", "Proposer=zero", "LastBlockID=",
+	} {
+		if strings.HasPrefix(base, p) {
+			return true
+		}
+	}
+	if strings.HasSuffix(base, "=nil") || strings.HasSuffix(base, "=flip000") {
+		return !strings.HasPrefix(base, "commit")
+	}
+	if m := strings.Index(base, "Height="); m == 0 { // Height=h+1 (relabelled block)
+		return true
+	}
+	return false
 }
 
 const syncN = chainLen // honest peers are at height N; N-1 blocks can be synced
@@ -167,20 +202,8 @@ func (fx *fixture) syncCases(thorough bool) []syncCase {
 			if strings.Contains(base, "flip") && !strings.HasSuffix(base, "flip000") {
 				continue
 			}
-			if !thorough {
-				// quick: roles menu restricted to assignments with at most one non-B role kind besides 'a' (absent)
-				if strings.HasPrefix(base, "commit/roles=") {
-					r := strings.TrimPrefix(base, "commit/roles=")
-					if strings.ContainsAny(r, "NOx") && strings.Count(r, "B")+strings.Count(r, "a") < len(r)-1 {
-						continue
-					}
-				}
-				if strings.HasPrefix(base, "commit/validx=") || strings.HasPrefix(base, "commit/perm") || strings.HasPrefix(base, "commit/dup") {
-					continue
-				}
-				if strings.Contains(base, "=other:") && !strings.Contains(base, "other:BlockHash") {
-					continue
-				}
+			if !thorough && !quickSyncKeep(base) {
+				continue
 			}
 			if o, ok := best[base]; !ok || bitsSet(m.fx) > bitsSet(o.fx) {
 				best[base] = m
@@ -193,10 +216,13 @@ func (fx *fixture) syncCases(thorough bool) []syncCase {
 		sort.Strings(names)
 		for _, b := range names {
 			m := best[b]
-			blk, _ := decodeBlock(fx.steps[k].bytes)
-			m.f(blk)
-			fx.applyFixups(k, blk, m.fx)
-			cs = append(cs, syncCase{Name: fmt.Sprintf("evil serves h%d/%s", k, m.name), Claimed: syncN, Serve: map[int64]*types.Block{k: blk}})
+			k := k
+			cs = append(cs, syncCase{Name: fmt.Sprintf("evil serves h%d/%s", k, m.name), Claimed: syncN, build: func() map[int64]*types.Block {
+				blk, _ := decodeBlock(fx.steps[k].bytes)
+				m.f(blk)
+				fx.applyFixups(k, blk, m.fx)
+				return map[int64]*types.Block{k: blk}
+			}})
 		}
 	}
 	// the last served height N is only ever used as `second` (its LastCommit vouches for N-1): commit menus
@@ -317,10 +343,11 @@ type syncResult struct {
 	EvilBanned bool         `json:"evil_banned"`
 	Stalled    bool         `json:"stalled"` // evil had to be dropped to make progress
 	Complete   bool         `json:"complete"`
-	HonestStop string       `json:"honest_stopped_for,omitempty"`
+	HonestStopped int       `json:"honest_stopped"`
 }
 
 func (fx *fixture) runSyncCase(idx int, c syncCase, timeout time.Duration) syncResult {
+	c.materialize()
 	n := newNode()
 	defer n.stop()
 	bs := store.NewBlockStore(memdb.NewMemDB())
@@ -353,6 +380,8 @@ func (fx *fixture) runSyncCase(idx int, c syncCase, timeout time.Duration) syncR
 
 	res := syncResult{Idx: idx}
 	honestUp := false
+	honestGen := 0
+	honestID := func() p2ptypes.ID { return p2ptypes.ID(fmt.Sprintf("honest%d", honestGen)) }
 	start := time.Now()
 	lastProgress := time.Now()
 	lastCommitted := 0
@@ -368,15 +397,24 @@ func (fx *fixture) runSyncCase(idx int, c syncCase, timeout time.Duration) syncR
 		}
 		if _, banned := sw.wasStopped("evil"); banned && !honestUp {
 			honestUp = true
-			sw.connect("honest", syncN, authentic)
+			sw.connect(honestID(), syncN, authentic)
 			lastProgress = time.Now()
 		}
 		if !honestUp && time.Since(lastProgress) > 400*time.Millisecond {
 			res.Stalled = true
 			sw.drop("evil")
 			honestUp = true
-			sw.connect("honest", syncN, authentic)
+			sw.connect(honestID(), syncN, authentic)
 			lastProgress = time.Now()
+		}
+		if honestUp {
+			// The reactor can blame the wrong peer for a stale block of a removed peer (requester reset is
+			// asynchronous): an honest peer that gets stopped is replaced by another honest peer.
+			if _, st := sw.wasStopped(honestID()); st && honestGen < 50 {
+				res.HonestStopped++
+				honestGen++
+				sw.connect(honestID(), syncN, authentic)
+			}
 		}
 		if time.Since(start) > timeout {
 			break
@@ -388,7 +426,6 @@ func (fx *fixture) runSyncCase(idx int, c syncCase, timeout time.Duration) syncR
 	res.Applied = n.app.appliedCopy()
 	res.Committed = n.app.committedCount()
 	res.EvilStop, res.EvilBanned = sw.wasStopped("evil")
-	res.HonestStop, _ = sw.wasStopped("honest")
 	return res
 }
 
@@ -413,7 +450,7 @@ func syncWorkerMain(_ int) {
 			idxs = append(idxs, i)
 		}
 	}
-	par := 6
+	par := 8
 	if len(idxs) == 1 {
 		par = 1
 	}
@@ -573,6 +610,7 @@ func runSync(fx *fixture) map[string]any {
 		}
 	}
 	var applied, evaluated int64
+	var nBanned, nStalled, nUndetected, nHonestStopped int
 	for i, c := range cases {
 		if msg, ok := crashed[i]; ok {
 			r.Eval()
@@ -615,14 +653,20 @@ func runSync(fx *fixture) map[string]any {
 		case !res.Complete:
 			incomplete++
 			r.Outcome("sync:incomplete(hang-suspect)")
-		case res.EvilBanned:
-			r.Outcome("sync:authentic-chain-applied/evil-stopped")
-		case res.Stalled:
-			r.Outcome("sync:authentic-chain-applied/evil-dropped-after-stall")
 		default:
-			r.Outcome("sync:authentic-chain-applied/evil-undetected(harmless)")
+			r.Outcome("sync:exactly-the-authentic-chain-applied")
+			if res.EvilBanned {
+				nBanned++
+			} else if res.Stalled {
+				nStalled++
+			} else {
+				nUndetected++
+			}
+			nHonestStopped += res.HonestStopped
 		}
 	}
+	// timing-dependent statistics: printed, deliberately NOT part of the evidence
+	fmt.Printf("sync (informative, timing-dependent): evil stopped for error=%d, dropped after stall=%d, undetected but harmless=%d, honest peers wrongly stopped=%d\n", nBanned, nStalled, nUndetected, nHonestStopped)
 	if incomplete > 0 || int(evaluated)+len(crashed) < len(cases) {
 		r.MarkCapped()
 	}
